@@ -202,7 +202,7 @@ func writeEvidence(dir string, r *runResult, explanation string, trusted []strin
 		"seed":        r.seed,
 		"level":       "other",
 		"coverage":    cov,
-		"assumptions": append(append([]string{}, assumptions...), renameAssumptions()...),
+		"assumptions": append(append(append([]string{}, assumptions...), renameAssumptions()...), foldAssumptions()...),
 		"wall_s":      time.Since(r.start).Seconds(),
 		"violations":  len(r.violations),
 	}
